@@ -167,17 +167,8 @@ fn compute_block_facts<'ast, 'arena>(
                     }
                 }
             }
-            for &callee in &op.direct_callees {
-                let summary = &summaries[callee.0 as usize];
-                if !summary.available {
-                    continue;
-                }
-                for &local in &summary.transitive_capture_writes {
-                    if facts.locals[local.0 as usize].owner == function {
-                        note_def(&mut defs, local, local_start);
-                    }
-                }
-            }
+            // A callee's capture writes are *may* writes (it can return or branch before
+            // them): they never hide an earlier store.
 
             for &local in &op.writes {
                 note_def(&mut defs, local, local_start);
@@ -202,14 +193,6 @@ fn apply_op_transfer(
     for &local in &op.writes {
         clear_local(live, local, local_start);
     }
-    for &callee in &op.direct_callees {
-        for &local in &summaries[callee.0 as usize].transitive_capture_writes {
-            if facts.locals[local.0 as usize].owner == function {
-                clear_local(live, local, local_start);
-            }
-        }
-    }
-
     for &local in &op.reads {
         set_local(live, local, local_start);
     }
